@@ -328,6 +328,13 @@ def compute_feats_from_kaldi_tables(args: Optional[Sequence[str]] = None) -> Non
         )
         return 1
     num_utts, num_success = 0, 0
+    _verif.emit(
+        "config",
+        tool="kaldi",
+        pre=[type(p).__name__ for p in preprocessors],
+        post=[type(p).__name__ for p in postprocessors],
+        computer=True,
+    )
     for utt_id, (buff, samp_freq, duration) in list(wav_reader.items()):
         num_utts += 1
         if duration < options.min_duration:
@@ -622,6 +629,13 @@ def signals_to_torch_feat_dir(args=None):
     if not os.path.isdir(options.dir):
         os.makedirs(options.dir)
     _verif.emit("start", todo=list(utt2path), seed=seed, workers=options.num_workers)
+    _verif.emit(
+        "config",
+        tool="torch",
+        pre=[type(p).__name__ for p in preprocessors],
+        post=[type(p.postprocessor).__name__ for p in postprocessors],
+        computer=computer is not None,
+    )
     for utt_ids, feats in loader:
         utt_id, feat = utt_ids[0], feats[0]
         _verif.emit("save_begin", utt=utt_id)
